@@ -1049,6 +1049,26 @@ pub fn generate(ctx: &mut Ctx) {
             ctx.case("rt:literal", &format!("rt {}", show_f(&f)));
         }
     }
+    // timestamp literals where only the written offset tells two instants apart (both passes of the repeated hour at the
+    // end of daylight saving time, the seconds around each transition) and where the offset has seconds (local mean
+    // time), and zones with three-segment ids: the literal must come back with its exact value
+    {
+        let mut stamps: Vec<DateTime> = gen::dst_edge_datetimes();
+        stamps.extend(gen::lmt_datetimes());
+        for zone in ["America/Indiana/Knox", "America/Kentucky/Monticello", "America/North_Dakota/Center", "America/Argentina/Ushuaia", "America/Argentina/Buenos_Aires"] {
+            if let Ok(tz) = zone.parse::<chrono_tz::Tz>() {
+                use chrono::TimeZone;
+                if let Some(d) = tz.timestamp_opt(1_636_270_200, 0).single() {
+                    stamps.push(DateTime::from(d));
+                }
+            }
+        }
+        for (i, dt) in stamps.into_iter().enumerate() {
+            let op = OPS[i % OPS.len()];
+            let f = vec![vec![T::Cmp(op.to_string(), vec!["ts".to_string()], Value::DateTime(dt))]];
+            ctx.case("rt:stamp", &format!("rt {}", show_f(&f)));
+        }
+    }
     // arbitrary constructible trees: `to_string` fidelity for every Value kind
     let n = ctx.n(300, 30_000);
     for _ in 0..n {
